@@ -201,6 +201,7 @@ class Builder:
                 self._write(os.path.join(pdir, "__init__.pyi"), STUB)
         elif top == "ns":
             os.makedirs(pdir, exist_ok=True)
+            self._write(os.path.join(pdir, ".keep"), "")       # git does not track empty directories (load_git entry)
         elif top == "sofile":
             self._module("p", "so", self.sp, "p")
         elif top == "zip":
